@@ -516,4 +516,99 @@ theorem run_refines (ops : List (Op κ ν)) :
     rw [h2] at this
     exact this
 
+/-! ### copying (fixes/C11_lru_copy.patch) and histories over two caches -/
+
+theorem idxFind_idxInsert (ix : List (κ × Nat)) (k0 : κ) (id0 : Nat) (k : κ) :
+    idxFind (idxInsert ix k0 id0) k =
+      if (idxFind ix k0).isSome then idxFind ix k else if k0 = k then some id0 else idxFind ix k := by
+  unfold idxInsert
+  by_cases h : (idxFind ix k0).isSome
+  · simp [h]
+  · simp only [h, Bool.false_eq_true, if_false]; exact idxFind_cons ix k0 id0 k
+
+theorem idxFind_rebuild_aux (d : List (Nat × κ × ν)) : ∀ (ix : List (κ × Nat)) (k : κ),
+    idxFind (d.foldl (fun ix nd => idxInsert ix nd.2.1 nd.1) ix) k =
+      match idxFind ix k with
+      | some id => some id
+      | none => (d.find? (fun nd => nd.2.1 == k)).map (·.1) := by
+  induction d with
+  | nil => intro ix k; simp only [List.foldl_nil, List.find?_nil, Option.map_none]; cases idxFind ix k <;> rfl
+  | cons nd t ih =>
+    intro ix k
+    simp only [List.foldl_cons]
+    rw [ih, idxFind_idxInsert, List.find?_cons]
+    by_cases hk : nd.2.1 = k
+    · have hb : (nd.2.1 == k) = true := by simp [hk]
+      cases h0 : idxFind ix nd.2.1 with
+      | some id => rw [hk] at h0; simp [h0, hk]
+      | none => rw [hk] at h0; simp [h0, hk]
+    · have hb : (nd.2.1 == k) = false := beq_false_of_ne hk
+      by_cases h : (idxFind ix nd.2.1).isSome
+      · simp [h, hb]
+      · simp [h, hk, hb]
+
+/-- the rebuilt index maps a key to the first node carrying it -/
+theorem idxFind_rebuildIndex (d : List (Nat × κ × ν)) (k : κ) :
+    idxFind (rebuildIndex d) k = (d.find? (fun nd => nd.2.1 == k)).map (·.1) := by
+  have := idxFind_rebuild_aux d [] k
+  simpa [rebuildIndex, idxFind] using this
+
+theorem copy_refines {s : State κ ν} (h : Inv s) : Inv (copy s) ∧ abs (copy s) = abs s := by
+  refine ⟨⟨h.ids, h.keys, ?_, h.fresh⟩, rfl⟩
+  intro k id
+  show idxFind (rebuildIndex s.data) k = some id ↔ _
+  rw [idxFind_rebuildIndex]
+  constructor
+  · intro hf
+    cases hfd : s.data.find? (fun nd => nd.2.1 == k) with
+    | none => rw [hfd] at hf; simp at hf
+    | some nd =>
+      rw [hfd] at hf
+      have hm := List.mem_of_find?_eq_some hfd
+      have hk := List.find?_some hfd
+      obtain ⟨a, b, c⟩ := nd
+      simp only [Option.map_some, Option.some.injEq, beq_iff_eq] at hk hf
+      subst hk; subst hf
+      exact ⟨c, hm⟩
+  · rintro ⟨v, hm⟩
+    have := find?_key h.keys hm
+    simp only at this
+    rw [this]; rfl
+
+theorem assign_refines {s : State κ ν} (h : Inv s) (o : Option (State κ ν)) (ho : ∀ t, o = some t → Inv t) :
+    Inv (assign s o) ∧ abs (assign s o) = match o with | none => abs s | some t => abs t := by
+  cases o with
+  | none => exact ⟨h, rfl⟩
+  | some t => exact copy_refines (ho t rfl)
+
+theorem step2_refines {w : World κ ν} (ha : Inv w.a) (hb : Inv w.b) (o : Op2 κ ν) :
+    Inv (step2 w o).a ∧ Inv (step2 w o).b ∧
+      ((abs (step2 w o).a, abs (step2 w o).b) = specStep2 (abs w.a, abs w.b) o) := by
+  cases o with
+  | on t o =>
+    cases t with
+    | a => obtain ⟨h1, h2⟩ := step_refines ha o; exact ⟨h1, hb, by simp [step2, specStep2, h2]⟩
+    | b => obtain ⟨h1, h2⟩ := step_refines hb o; exact ⟨ha, h1, by simp [step2, specStep2, h2]⟩
+  | copyFrom t =>
+    cases t with
+    | a => obtain ⟨h1, h2⟩ := copy_refines hb; exact ⟨h1, hb, by simp [step2, specStep2, assign, h2]⟩
+    | b => obtain ⟨h1, h2⟩ := copy_refines ha; exact ⟨ha, h1, by simp [step2, specStep2, assign, h2]⟩
+  | selfAssign t =>
+    cases t with
+    | a => exact ⟨ha, hb, by simp [step2, specStep2, assign]⟩
+    | b => exact ⟨ha, hb, by simp [step2, specStep2, assign]⟩
+
+theorem run2_refines (ops : List (Op2 κ ν)) : ∀ {w : World κ ν}, Inv w.a → Inv w.b →
+    Inv (run2 w ops).a ∧ Inv (run2 w ops).b ∧
+      (abs (run2 w ops).a, abs (run2 w ops).b) = specRun2 (abs w.a, abs w.b) ops := by
+  induction ops with
+  | nil => intro w ha hb; exact ⟨ha, hb, rfl⟩
+  | cons o t ih =>
+    intro w ha hb
+    obtain ⟨h1, h2, h3⟩ := step2_refines ha hb o
+    have := ih h1 h2
+    simp only [run2, specRun2, List.foldl_cons] at this ⊢
+    rw [h3] at this
+    exact this
+
 end DV.C11.LRU
